@@ -446,7 +446,8 @@ pub fn c20(ctx: &mut Ctx) {
         return;
     }
     // systematic part: every data type alone at offset 0 with every boundary value
-    if ctx.shard == 0 {
+    // (not under Miri: thousands of calls, minutes per hundred there; the random layouts reach the same code)
+    if ctx.shard == 0 && ctx.tier != Tier::Miri {
         systematic(&mut ctx.rep);
     }
     let n = ctx.n(400_000, 20_000_000, 150);
